@@ -7,6 +7,7 @@ mkdir -p .work/bin .work/gocache
 export GOCACHE="$PWD/.work/gocache"
 (cd extract && go build -o ../.work/bin/extract .)
 ./.work/bin/extract -repo /repo -out lean/ErgoVerif/Generated -facts .work/facts.json
+python3 gen_driver.py
 (cd lean && lake build)
 (cd harness && go build -tags verif -o ../.work/bin/harness .)
 echo setup done
